@@ -74,7 +74,7 @@ func (live) Describe() core.EngineInfo {
 		Real:       []string{"goatlang loader, parser, compiler+optimizer, VM (GLOBALFUNC, GLOBALZERO, GLOBALSTRUCT, addMethod, newMethod, Yield), via New/Load/Eval/Call/Set"},
 		Stubs:      []string{"os.DirFS -> SimDisk", "cli.live glue (readline, radovskyb/watcher, goroutines, liveCh) -> session drain with the same behaviour (Load on reload command, Eval otherwise, errors to a stderr sink, drain continues)", "time.Sleep -> Yield + simulated clock", "watcher polling is modelled at generation time: reload events are placed at yields after saves, duplicated, coalesced or delayed"},
 		Assumes:    []string{"entities keep their names and signatures across versions; nothing is removed or re-typed", "a failed load may have applied any part of what it was served (old or served version accepted)", "overlapping loads (a reload landing inside init of a load in progress) leave either version", "a served line that is not byte-identical to a generated line makes its entity unknown until the next clean load"},
-		ProbesWant: []string{"reload_ok", "reload_failed", "reload_depth_1", "reload_depth_2", "reload_depth_3", "fault:torn-save", "fault:spliced-save", "fault:mixed-version-snapshot", "fault:save-during-load", "fault:delete", "obs_d", "obs_fv", "obs_bm", "obs_sf", "obs_im", "obs_iv", "obs_hv", "obs_zv", "obs_sa", "repl_redefine", "set_valued_obs", "reload_identical", "reload_single_file", "reload_library_alone"},
+		ProbesWant: []string{"reload_ok", "reload_failed", "reload_depth_1", "reload_depth_2", "reload_depth_3", "fault:torn-save", "fault:spliced-save", "fault:mixed-version-snapshot", "fault:save-during-load", "fault:delete", "fault:save-failing-at-run-time", "obs_d", "obs_fv", "obs_bm", "obs_sf", "obs_im", "obs_iv", "obs_hv", "obs_zv", "obs_sa", "repl_redefine", "set_valued_obs", "reload_identical", "reload_single_file", "reload_library_alone"},
 	}
 }
 
@@ -92,6 +92,11 @@ func (live) genSave(r *core.PRNG, w *LiveWorld, ver int, faulty bool) LStep {
 			s.Mode, s.CutA, s.CutB = "spliced", r.Intn(1001), r.Intn(1001)
 		case 5:
 			s.Mode = "delete"
+		case 6:
+			if f[0] != 0 {
+				// a complete save whose package-level code fails when it runs (not when it is compiled)
+				s.Mode = "rtfail"
+			}
 		}
 	}
 	return s
@@ -597,6 +602,9 @@ func (run *liveRun) save(s *LStep) {
 	case "spliced":
 		neu = append(append([]byte{}, neu[:cutAt(len(neu), s.CutA)]...), old[cutAt(len(old), s.CutB):]...)
 		run.h.C.Inc("fault:spliced-save")
+	case "rtfail":
+		neu = append(neu, []byte("var zzBad = []int{1}[7]\n")...)
+		run.h.C.Inc("fault:save-failing-at-run-time")
 	case "delete":
 		run.h.Disk.Remove(path)
 		run.h.C.Inc("fault:delete")
@@ -769,6 +777,11 @@ func (run *liveRun) load(s *LStep, depth int) {
 			// that vanishes between listing and open makes goatlang skip the whole package silently
 			sv.shaky[du.Save.Pkg] = true
 		}
+	}
+	if err == nil && !al.nested && opsAtEnd == base && !run.poisoned {
+		// a Load that reports success without a single disk operation (no listing, stat, open or
+		// read) cannot know the current source, whatever it caches
+		run.fail("C17/newcode", "load-read-nothing", "Load(%q) returned nil without touching the disk: it cannot have reloaded anything", arg)
 	}
 	changed := 0
 	clean := err == nil && !al.nested && !sv.poison
@@ -988,6 +1001,14 @@ func (run *liveRun) obs(kind string, id int, val goatlang.Value) {
 				what = "the instance created before the reloads"
 			}
 			run.fail("C17/keep", "print-shape", "fmt.Sprint of %s of type T%d (declared in a file that never changes) is %d bytes long, it was %d bytes at its first observation", what, id%100, v, first)
+		}
+	case "sn":
+		want := 1
+		if run.instUp {
+			want = 0
+		}
+		if v != want {
+			run.fail("C17/keep", "empty-container", "package variable %s (no initialiser; captureInst stores an empty, non-nil %s in it) compares to nil as %v, want %v", []string{"SM", "SS"}[id%2], []string{"map", "slice"}[id%2], v == 1, want == 1)
 		}
 	case "fa":
 		if v != 10+id {
